@@ -51,10 +51,11 @@ fn uncache_under_replace(t: &T, under: bool) -> T {
 fn has_cached_under_replace(t: &T) -> bool { t.has(&|x| matches!(x, T::Replace(i, _) if i.has(&|y| matches!(y, T::Cached(..))))) }
 /// K5: a CachedSource beneath a ReplaceSource replays coarser chunks than its first fill; the failure
 /// is this finding exactly when it disappears once those CachedSource wrappers are removed.
-fn k5(c: &Case, f: &Finding, oracle: &dyn Fn(&Case, &[Out]) -> Vec<Finding>) -> Option<String> {
+fn k5(c: &Case, f: &Finding, oracle: &(dyn Fn(&Case, &[Out]) -> Vec<Finding> + std::panic::RefUnwindSafe)) -> Option<String> {
   if !c.trees.iter().any(has_cached_under_replace) { return None }
   let c2 = Case { trees: c.trees.iter().map(|t| uncache_under_replace(t, false)).collect(), script: c.script.clone(), note: c.note.clone() };
-  if oracle(&c2, &run_case_impl(&c2)).iter().any(|x| x.clause == f.clause) { None } else { Some("K5".into()) }
+  let still = catch(|| oracle(&c2, &run_case_impl(&c2)).iter().any(|x| x.clause == f.clause)).unwrap_or(true);
+  if still { None } else { Some("K5".into()) }
 }
 fn has_composite(c: &Case) -> bool { c.trees.iter().any(|t| t.has(&|x| matches!(x, T::Replace(..) | T::Concat(_) | T::Cached(..)))) }
 
@@ -73,7 +74,8 @@ pub fn c01() -> TreeProp {
     gen: Box::new(|rng, thorough| {
       let cfg = GenCfg::wild(if thorough { 4 } else { 3 });
       let t = TreeGen::new().tree(rng, &cfg, cfg.depth, false);
-      single(t, vec![Op::Src, Op::Stream(true, false), Op::Stream(false, false)], "C01")
+      // every stream twice: the second pass of a CachedSource replays from its cache
+      single(t, vec![Op::Src, Op::Stream(true, false), Op::Stream(false, false), Op::Stream(true, false), Op::Stream(false, false)], "C01")
     }),
     oracle: Box::new(|c, outs| {
       let mut v = vec![];
